@@ -15,6 +15,14 @@
 //	        cbor tags); container heads claiming 0xFFFFFFFF80000000 elements (= containerLenNil once truncated);
 //	        long inputs WITHOUT nesting (3*10^6 element arrays, strings, json escapes, cbor chunks) decoded, skipped, captured
 //
+//	ill     (illStream) ill-formed nestings: heads that are NOT legitimate nesting units repeated n times (cbor: an
+//	        indefinite-length string / array / map head, a tag, a container head in the CHUNK position of an
+//	        indefinite-length string, bytes and text; a break byte where a map value or a tag's content belongs), alone and
+//	        in fixed mixtures, n around MaxDepth, 3*MaxDepth+5 and 5000, on every path that takes an arbitrary value plus
+//	        []byte and string destinations, bytes and io.Reader, fixed option vectors; in the deep stream 10^6 of each
+//	        under a 16 MB stack cap. Oracle: n >= MaxDepth => an error (any class), or -- for the units the unchanged
+//	        skip walker passes in a loop -- whatever the wire model says; never a stack that grows with n.
+//
 // Oracle: levels >= MaxDepth => an error (no success, no crash; the implementation refuses
 // exactly at depth == MaxDepth, see the note in checks/C14.py); levels < MaxDepth => no depth
 // error, and no error at all for well-formed inputs whose keys are hashable.
@@ -120,9 +128,17 @@ func (c *ctx) judge(stream string, f hx.Fmt, o hx.Opts, p hx.Path, pat []hx.Unit
 	md := o.EffMaxDepth()
 	cid := fmt.Sprintf("%s:%s:%s", f, p.Name, patName(pat))
 	cj := func() map[string]interface{} { return caseJSON(f, o, p, pat, count, eff, in) }
+	ill, lenient := hx.IsIll(pat, count)
 	switch {
 	case escaped:
 		c.sum.FailC(stream, "panic-escaped:"+cid, "a panic escaped Decode", cj())
+	case ill:
+		// not a legitimate way of nesting: any error is fine at any count; accepted at MaxDepth or beyond means the
+		// heads nested without the depth counter seeing them -- unless the path gets past them in a loop (Lenient
+		// units under the skip walker: the wire model decides those, the deep stream watches the stack)
+		if eff >= md && cls == 0 && !(lenient && p.Walker) {
+			c.sum.FailC(stream, "illformed-nesting-accepted:"+cid, "heads that are not a legitimate nesting unit (an indefinite-length or non-string head in the chunk position of an indefinite-length string; a break byte where a value belongs) nested MaxDepth times or more were decoded without error", cj())
+		}
 	case hostile(p, pat, count):
 		if cls == 0 {
 			c.sum.FailC(stream, "hostile-nesting-accepted:"+cid, "a nesting that can only be an error (a container head claiming 0xFFFFFFFF80000000 elements; a tag 4/5 item where an integer exponent / mantissa belongs) was accepted", cj())
@@ -361,6 +377,65 @@ func mixStream(c *ctx, n int) {
 	}
 }
 
+// ---- ill-formed nestings (deterministic: no random choice) ----
+
+func illOpts(f hx.Fmt, md int) []hx.Opts {
+	base := hx.Opts{MaxDepth: md, WriteExt: true}
+	var out []hx.Opts
+	add := func(m func(o *hx.Opts)) {
+		o := base
+		m(&o)
+		out = append(out, o)
+	}
+	add(func(o *hx.Opts) {})
+	add(func(o *hx.Opts) { o.SkipTags = true })
+	add(func(o *hx.Opts) { o.ZeroCopy, o.Signed = true, true })
+	add(func(o *hx.Opts) { o.RawToString, o.MaxInitLen = true, 16 })
+	add(func(o *hx.Opts) { o.ValidateUnicode = true })
+	add(func(o *hx.Opts) { o.IO, o.RBS, o.Chunk = true, 0, 1 })
+	add(func(o *hx.Opts) { o.IO, o.RBS, o.Chunk = true, 0, 7 })
+	add(func(o *hx.Opts) { o.IO, o.RBS = true, 16 })
+	add(func(o *hx.Opts) { o.IO, o.RBS = true, 4096 })
+	return out
+}
+
+func illStream(c *ctx) {
+	for _, f := range hx.All {
+		var pats [][]hx.Unit
+		for _, u := range hx.IllUnits(f) {
+			pats = append(pats, []hx.Unit{u})
+		}
+		pats = append(pats, hx.IllMixtures(f)...)
+		if len(pats) == 0 {
+			continue
+		}
+		for _, md0 := range maxDepths {
+			for _, pn := range hx.IllPathNames {
+				p := hx.PathByName(pn)
+				for _, o := range illOpts(f, md0) {
+					md := o.EffMaxDepth()
+					for _, pat := range pats {
+						ns := countsAround(p, f, o, pat, md)
+						ns = append(ns, 3*md+5)
+						if md == 1024 {
+							ns = append(ns, 5000)
+						}
+						for _, n := range ns {
+							if n < 1 {
+								continue // no unit at all: not ill-formed
+							}
+							// model cases (plain and SkipUnexpectedTags option vectors): every one at the small MaxDepths; at the
+							// default only run-length compact ones
+							model := !o.ZeroCopy && !o.RawToString && (md <= 16 || (len(pat) == 1 && n%2 == 0 && n <= md+2))
+							c.one("ill", f, o, p, pat, n, model)
+						}
+					}
+				}
+			}
+		}
+	}
+}
+
 // ---- far beyond MaxDepth, in subprocesses ----
 
 type deepJob struct {
@@ -394,6 +469,9 @@ func childMain(spec string) {
 	var pat []hx.Unit
 	for _, n := range j.Units {
 		u, ok := hx.UnitByName(us, n)
+		if !ok {
+			u, ok = hx.IllUnitByName(f, n)
+		}
 		if !ok {
 			os.Exit(3)
 		}
@@ -463,6 +541,34 @@ func deepStream(c *ctx, count int, all bool) {
 				o3 := base
 				o3.IO, o3.RBS = true, 4096
 				jobs = append(jobs, job{deepJob{F: int(f), O: o3, Path: p.Name, Units: []string{us[0].Name}, Count: count}, []hx.Unit{us[0]}, p})
+			}
+		}
+	}
+	// ill-formed nestings: 16 MB of stack is far more than MaxDepth legitimate levels need on any path
+	for _, f := range hx.All {
+		var pats [][]hx.Unit
+		for _, u := range hx.IllUnits(f) {
+			pats = append(pats, []hx.Unit{u})
+		}
+		if mx := hx.IllMixtures(f); len(mx) > 3 {
+			pats = append(pats, mx[0], mx[3])
+		}
+		for _, pat := range pats {
+			var names []string
+			for _, u := range pat {
+				names = append(names, u.Name)
+			}
+			for _, pn := range hx.IllPathNames {
+				p := hx.PathByName(pn)
+				o := hx.Opts{WriteExt: true}
+				jobs = append(jobs, job{deepJob{Stack: 16, F: int(f), O: o, Path: pn, Units: names, Count: count}, pat, p})
+				if p.Walker || pn == "iface" {
+					o.IO, o.RBS = true, 4096
+					if pn == "rawfield" {
+						o.RBS = 0
+					}
+					jobs = append(jobs, job{deepJob{Stack: 16, F: int(f), O: o, Path: pn, Units: names, Count: count}, pat, p})
+				}
 			}
 		}
 	}
@@ -575,6 +681,7 @@ func main() {
 	nMix := flag.Int("mix", 300, "random mixtures")
 	deep := flag.Int("deep", 1000000, "nesting levels of the far-beyond cases (0: skip)")
 	deepAll := flag.Bool("deepall", false, "every unit in the deep stream")
+	ill := flag.Bool("ill", true, "the ill-formed nesting stream")
 	child := flag.String("child", "", "(internal) run one deep case")
 	cases := flag.String("cases", "cases_c14", "directory for the model case files")
 	flag.Parse()
@@ -584,11 +691,16 @@ func main() {
 	}
 	r := vh.NewRng(vh.SeedFromEnv())
 	sum := vh.NewSummary("around/mix: (format, path, nesting unit or mixture, MaxDepth, levels relative to MaxDepth in {below, md-1, md, md+1, beyond}, options incl. transport, outcome class); " +
-		"deep: (format, path, unit/mixture, options) with 10^5..3*10^6 levels in a 64 MB-stack subprocess. Every case is non-trivial (it nests at least MaxDepth-2 levels)")
+		"deep: (format, path, unit/mixture, options) with 10^5..3*10^6 levels in a 64 MB-stack subprocess; " +
+		"ill: the same tuple for ill-formed nesting units (heads that are not legitimate nesting units, cbor) and their fixed mixtures, counts around MaxDepth, 3*MaxDepth+5, 5000 " +
+		"(deep: 10^6 under a 16 MB stack cap). Every case is non-trivial (it nests at least MaxDepth-2 levels)")
 	c := &ctx{r: r, sum: sum}
 	c.cv = vh.NewCases(*cases, coqHeader, "case", "mismatches", 40)
 	aroundStream(c, *scale)
 	mixStream(c, *nMix)
+	if *ill {
+		illStream(c)
+	}
 	c.cv.Close()
 	if *deep > 0 {
 		deepStream(c, *deep, *deepAll)
